@@ -201,8 +201,6 @@ impl UnixTerminal {
         // termination signal must not cut the delivery of the epilogue short
         self.signal_delivery.handle().close();
         self.signal_delivery.pending().for_each(drop);
-        #[cfg(feature = "verif-hooks")]
-        self.verif_c17_dispose("signals_off");
 
         // flush currently queued output and submit the epilogue
         self.execute_many([
@@ -272,6 +270,7 @@ impl UnixTerminal {
             step,
             queued: self.write_queue.len(),
             events: self.events_queue.len(),
+            signals_closed: self.signal_delivery.handle().is_closed(),
         });
     }
 }
